@@ -144,6 +144,10 @@ type Interp struct {
 	extInit     map[*ssa.Package]bool
 	runningExtInit int
 	onceDone    map[string]bool
+	sched       *sched
+	atomicSeq   int
+	lastStore   map[string]int
+	heldMutex   map[string]bool
 	violCount   map[string]int
 }
 
@@ -158,6 +162,7 @@ type Event struct {
 	Obj    int
 	Path   string
 	PCLen  int
+	Seq    int // atomic store: its id; atomic load: id of the store it observed (0 = initial value)
 }
 
 func (in *Interp) unsupported(msg string) {
